@@ -85,6 +85,51 @@ Theorem zipper_consistent : forall root d, In d (locs_of root []) -> plug (node_
 Proof. exact DomProofs.zipper_consistent. Qed.
 Print Assumptions zipper_consistent.
 
+(* written text is text: whatever the string contains (markup, character
+   references), the element then has exactly one text child carrying it, no
+   element children, and reads back the string *)
+Theorem text_write_is_leaf : forall d t,
+  inner_html (set_text d t) = [T t] /\ children (set_text d t) = [] /\ inner_text (set_text d t) = t.
+Proof. exact DomProofs.text_write_is_leaf. Qed.
+Print Assumptions text_write_is_leaf.
+
+(* histories on one element wrapper: element.go keeps an attribute cache and a
+   parsed-style cache next to the node; for every sequence of reads and writes
+   through STYLE_GET / STYLE_SET / STYLE_REMOVE / ATTR_GET / ATTR_SET (one
+   attribute or an object) / ATTR_REMOVE / .style / .attributes, and reads
+   through a second wrapper of the same node, every read returns what the
+   cache-free meaning of the writes so far returns *)
+Theorem wrapper_caches_invisible : forall ops n, w_run true ops (fresh n) = sp_run ops n.
+Proof. exact DomProofs.wrapper_caches_invisible. Qed.
+Print Assumptions wrapper_caches_invisible.
+
+(* in particular, after any history (reads that filled the caches included) a
+   style read sees a style attribute written by a bulk attribute write, a style
+   written by STYLE_SET, and the removal of the style attribute *)
+Theorem style_read_after_bulk_write : forall ops n l d names, style_after l None = Some d ->
+  w_run true (ops ++ [WAttrs l; Rd (RStyle names)]) (fresh n) =
+  w_run true ops (fresh n) ++ [RdOpt (map (fun x => assoc x d) names)].
+Proof. exact DomProofs.style_read_after_bulk_write. Qed.
+Print Assumptions style_read_after_bulk_write.
+
+Theorem style_read_after_style_set : forall ops n k v,
+  w_run true (ops ++ [WStyle k v; Rd (RStyle [k])]) (fresh n) = w_run true ops (fresh n) ++ [RdOpt [Some v]].
+Proof. exact DomProofs.style_read_after_style_set. Qed.
+Print Assumptions style_read_after_style_set.
+
+Theorem style_read_after_attr_remove : forall ops n names,
+  w_run true (ops ++ [RmAttr [style_name]; Rd (RStyle names)]) (fresh n) =
+  w_run true ops (fresh n) ++ [RdOpt (map (fun _ => None) names)].
+Proof. exact DomProofs.style_read_after_attr_remove. Qed.
+Print Assumptions style_read_after_attr_remove.
+
+(* RemoveAttribute without dropping the parsed styles (the tree before the
+   repair proposed with this check): a style read after ATTR_REMOVE(e, "style")
+   still returns the removed declarations *)
+Theorem remove_style_pinned_refuted : exists ops n, w_run false ops (fresh n) <> sp_run ops n.
+Proof. exact DomProofs.remove_style_pinned_refuted. Qed.
+Print Assumptions remove_style_pinned_refuted.
+
 (* reading attributes, styles, text, children, parents, siblings never fails *)
 Theorem accessors_total : forall d n,
   (exists v, a_text d = Ok v) /\ (exists v, a_html d = Ok v) /\ (exists v, a_attrs d = Ok v) /\
@@ -140,3 +185,21 @@ Example side_condition_needed :
   select_all ex_ctx (SDesc (S1 (STag (bs "div"))) (STag (bs "li"))) <>
   xselect ex_ctx (to_xpath (SDesc (S1 (STag (bs "div"))) (STag (bs "li")))).
 Proof. vm_compute. discriminate. Qed.
+
+(* a history mixing the accessors: the style is read (cache filled), replaced by
+   a bulk attribute write, read, changed by STYLE_SET, read through a second
+   wrapper, the attribute removed, read again; text with markup is one text node *)
+Example history_satisfiable :
+  let n := est_of (mkH (bs "p") [(bs "class", bs "t")] [(bs "color", bs "red"); (bs "width", bs "10px")]) in
+  w_run true [Rd (RStyle [bs "color"; bs "width"]);
+              WAttrs [SetA (bs "title") (bs "q"); SetA style_name (bs "color: blue; ")];
+              Rd (RStyle [bs "color"; bs "width"]);
+              WStyle (bs "margin") (bs "auto");
+              RdFresh RStyles;
+              RmAttr [style_name];
+              Rd (RAttrGet [bs "title"; style_name])] (fresh n) =
+  [RdOpt [Some (bs "red"); Some (bs "10px")]; RdOpt [Some (bs "blue"); None];
+   RdDecls [(bs "color", bs "blue"); (bs "margin", bs "auto")]; RdA [Some (AV (bs "q")); None]] /\
+  style_after [SetA (bs "title") (bs "q"); SetA style_name (bs "color: blue; ")] None = Some [(bs "color", bs "blue")] /\
+  inner_html (set_text ex_ctx (bs "use <b>bold</b> here")) = [T (bs "use <b>bold</b> here")].
+Proof. repeat split; vm_compute; reflexivity. Qed.
